@@ -96,24 +96,24 @@ CHECKS = {
 ADDED = {
     "C01": "families for empty blocks, FOR bound / step conversion, truth of non-zero and fractional conditions; runs that exhaust the instruction budget are judged through the spec's fuel (an endless run of a program that Core ends is a mismatch).",
     "C02": "base programs also from the C03 call / EXIT / complete-blocks families, C05 goto families and the empty-block family; rule colonline (whole loop nests on one line).",
-    "C03": "STATIC x by-reference, calls after a STATIC procedure ran, places whose subscript calls a function, EXIT from every kind of block with an operand pending in the caller, ordinary and STATIC procedures in every source order, a place computed from a later argument, every block kind running to its end inside a procedure whose caller has an operand pending, SHARED variables passed by reference, parameterless functions as arguments.",
-    "C04": "fixed <- fixed, non-ASCII text at the cut, members spelled with their suffix, fresh numeric members in arithmetic, REDIM (also of SHARED arrays inside a SUB and in the module), wrong numbers of subscripts.",
-    "C05": "pending-operand family (also STATIC), failing kinds after a returned call and failing built-ins (Core knows LEN / LEFT$ / MID$), GOTO out of SELECT CASE and after finished blocks, errors in the last statement of a block in a loop, bare RESUME inside procedures, the failing statement as last statement of the main module, statements that fail on their first instruction under RESUME.",
-    "C06": "the monitor judges the type the machine computes with (variant tag), reads record fields, sees SINGLE-exactness; READ / INPUT / VAL into fresh fields, undefined functions as operands, MOD and / at the boundaries, float overflow, DOUBLE beyond SINGLE on both sides through every route, variables and function results that are never assigned.",
-    "C07": "alphabet of 111 token classes; Slots.tla (statement templates x fillers, about 1.1 million states, stratified sample in quick) incl. TYPE blocks with two members and dotted names with suffixes, file numbers of every shape, whole arrays as arguments.",
+    "C03": "STATIC x by-reference, calls after a STATIC procedure ran, places whose subscript calls a function, EXIT from every kind of block with an operand pending in the caller, ordinary and STATIC procedures in every source order, a place computed from a later argument, every block kind running to its end inside a procedure whose caller has an operand pending, SHARED variables passed by reference, parameterless functions as arguments (also with dotted names), 2-3 by-reference arguments of mixed shapes with a value each, fraction literals to whole-number parameters, subscripts naming by-reference variables of the same call (known finding).",
+    "C04": "fixed <- fixed, non-ASCII text at the cut, members spelled with their suffix, fresh numeric members in arithmetic, REDIM (also of SHARED arrays inside a SUB and in the module), wrong numbers of subscripts, subscripts that are elements themselves.",
+    "C05": "pending-operand family (also STATIC), failing kinds after a returned call and failing built-ins (Core knows LEN / LEFT$ / MID$), GOTO out of SELECT CASE and after finished blocks, errors in the last statement of a block in a loop, bare RESUME inside procedures, the failing statement as last statement of the main module, statements that fail on their first instruction under RESUME, failing ELSEIF / CASE / LOOP UNTIL headers, a jump right behind the failing statement, READ running out of data in the middle, RETURN inside procedures, RESUME label out of procedures and out of blocks (one known finding).",
+    "C06": "the monitor judges the type the machine computes with (variant tag), reads record fields, sees SINGLE-exactness; READ / INPUT / VAL into fresh fields, undefined functions as operands, MOD and / at the boundaries, float overflow, DOUBLE beyond SINGLE on both sides through every route, variables and function results that are never assigned, unary operators into every target type.",
+    "C07": "alphabet of 111 token classes; Slots.tla (statement templates x fillers, about 1.1 million states, stratified sample in quick) incl. TYPE blocks with two members and dotted names with suffixes, file numbers of every shape, whole arrays as arguments, bare names of built-in functions, dotted constants as targets.",
     "C08": "mis-kinded calls (one argument of a foreign kind, Calls.Mis), the Slots.tla space, fixed-length strings meeting non-ASCII text, non-ASCII console input, and a pass over the SHIPPED command-line program (default interpreter with the real console / printer / screen devices).",
     "C09": "moves for blanks before line ends, comment lines and comment + blank line combinations, blanks around separator colons, tight colons, every joinable line end at once; syntax-tour seeds.",
     "C10": "negated radix literals, operands in parentheses directly after keyword operators, many leading zeros; TLC validates in portions.",
     "C11": "host statement x fault expression product, already-returned helper calls, STATIC / recursive procedures in the chain, prior handled error (division or failing built-in), faults only the end of the input reveals under every line-end convention, open string literals, recursion that has returned before the fault, and the same texts read from a FILE by the shipped program.",
-    "C12": "every leaf at every parameter of every built-in, whole records of two TYPEs, undefined functions, user FUNCTION calls in every deep position (subscripts, members, CASE, STEP, DIM bounds, PRINT USING), labels of other procedures, argument lists of built-in statements, renaming across the first letters of DEFtype ranges.",
+    "C12": "every leaf at every parameter of every built-in, whole records of two TYPEs, undefined functions, user FUNCTION calls in every deep position (subscripts, members, CASE, STEP, DIM bounds, PRINT USING), labels of other procedures, argument lists of built-in statements, renaming across the first letters of DEFtype ranges, every position inside blocks of nine kinds, two member names behind a subscript, whole arrays as leaves.",
     "C13": "SUB parameters, FUNCTION names, REDIM, DEFtype in the middle of the module and overriding earlier ones, constants from constants, every pair of SUB statements after a SHARED declaration.",
     "C14": "local constants shadowing module constants, constants as arguments, as string lengths (also inside SUBs), constants of mixed numeric types under every operator, dotted names, suffixed references inside later constants, both operands failing, a constant as a string length against its written-out value.",
     "C15": "label-scope family (every jump kind x position x label position), run-time panics of accepted programs, statement marks at procedure entries; the value-level VM.tla validated instruction by instruction against the recorded registers (vm_conformance evidence, not an alarm).",
-    "C16": "sequences of PRINT USING statements, fractional values (Print.ScaledInField), negative numbers through comma fields, empty lists after pending statements, negative zero, every run of two and three separators.",
+    "C16": "sequences of PRINT USING statements, fractional values (Print.ScaledInField), negative numbers through comma fields, empty lists after pending statements, negative zero, every run of two and three separators, a PRINT statement that runs inside a function called from an item of another PRINT statement.",
     "C17": "arguments passed through variables must be unchanged after the call; whole programs built from the functions (loops, random nests under a handler, results as arguments) judged end to end by Core.tla, whose built-ins are the definitions of Strings.tla.",
-    "C18": "FIELD lists shorter than the record, several FIELD lists, records surviving CLOSE / OPEN FOR RANDOM, PRINT #n, x; and blank remainders, foreign line ends (given files, console), CLOSE lists, characters above 127, PRINT # without items and pending lines in every order, PUT of the record buffer as it stands.",
-    "C19": "a panic of a bridge call is data; PEEK / POKE through array elements among other variables, variables of procedures, plain DEF SEG, neighbours of a poked variable.",
-    "C20": "context-carrying repetition (ManyCtxParser), a failing right side of then_with (then_dep).",
+    "C18": "FIELD lists shorter than the record, several FIELD lists, records surviving CLOSE / OPEN FOR RANDOM, PRINT #n, x; and blank remainders, foreign line ends (given files, console), CLOSE lists, characters above 127, PRINT # without items and pending lines in every order, PUT of the record buffer as it stands, record operations on handles in another mode, file number 255.",
+    "C19": "a panic of a bridge call is data; PEEK / POKE through array elements among other variables, variables of procedures, plain DEF SEG, neighbours of a poked variable, SHARED array elements reached from procedures.",
+    "C20": "context-carrying repetition (ManyCtxParser), a failing right side of then_with (then_dep), every combinator over every combinator over every leaf in quick.",
 }
 
 NA_REASON = "check not built yet in this round (planned: see DESIGN.md section 5)"
